@@ -86,7 +86,8 @@ func runIsolated(prop, tier, level string) int {
 	cmd.Env = append(os.Environ(), "VERIF_ISOLATED=1")
 	var tail bytes.Buffer
 	cmd.Stdout = os.Stdout
-	cmd.Stderr = io.MultiWriter(os.Stderr, &limitedTail{buf: &tail, max: 1 << 16})
+	lt := &limitedTail{buf: &tail, max: 1 << 16}
+	cmd.Stderr = io.MultiWriter(os.Stderr, lt)
 	err := cmd.Run()
 	if err == nil {
 		return 0
@@ -96,6 +97,11 @@ func runIsolated(prop, tier, level string) int {
 		code = ee.ExitCode()
 	}
 	st := tail.String()
+	if lt.head.Len() > 0 {
+		// the crash report is longer than the tail window (stack overflow: hundreds of frames,
+		// every goroutine dumped): judge the part that starts at the crash marker
+		st = lt.head.String()
+	}
 	crashed := strings.Contains(st, "\npanic: ") || strings.HasPrefix(st, "panic: ") || strings.Contains(st, "fatal error: ")
 	if !crashed {
 		return code
@@ -144,12 +150,34 @@ func runIsolated(prop, tier, level string) int {
 }
 
 type limitedTail struct {
-	buf *bytes.Buffer
-	max int
+	buf  *bytes.Buffer
+	max  int
+	head bytes.Buffer // from the first crash marker on, at most 4*max bytes
 }
 
 func (l *limitedTail) Write(p []byte) (int, error) {
+	if l.head.Len() > 0 {
+		if room := 4*l.max - l.head.Len(); room > 0 {
+			if len(p) < room {
+				room = len(p)
+			}
+			l.head.Write(p[:room])
+		}
+	}
 	l.buf.Write(p)
+	if l.head.Len() == 0 {
+		b := l.buf.Bytes()
+		i := bytes.Index(b, []byte("fatal error: "))
+		if j := bytes.Index(b, []byte("\npanic: ")); j >= 0 && (i < 0 || j < i) {
+			i = j + 1
+		}
+		if i < 0 && bytes.HasPrefix(b, []byte("panic: ")) {
+			i = 0
+		}
+		if i >= 0 {
+			l.head.Write(b[i:])
+		}
+	}
 	if l.buf.Len() > 2*l.max {
 		b := l.buf.Bytes()
 		keep := append([]byte(nil), b[len(b)-l.max:]...)
